@@ -90,7 +90,7 @@ func Ident(t *rapid.T, label string) string {
 	return s
 }
 
-var stringRunes = []rune("abcxyzABC019 \t  #{}:=->,()*./$'\\|;<>!?@%^&+~[]`éλ中")
+var stringRunes = []rune("abcxyzABC019 \t  #{}:=->,()*./$'\\|;<>!?@%^&+~[]`éλ中e\u0301\u212b\u1100\u1161")
 
 // StringText draws the text of a quoted string: anything but '"' and line ends.
 func StringText(t *rapid.T, label string) string {
@@ -119,7 +119,13 @@ func widen(t *rapid.T, label string, r []rune) []rune {
 var commentRunes = []rune("abcxyzABC019     \t#{}:=->,()\"*./$'éλ中task%%")
 
 // CommentText draws the text after '#': anything without line ends, possibly empty or blank.
+// decorative comments: rules, boxes, shebang lines, with and without a blank after the '#'
+var decorComments = []string{"--------", " --------", "=====", " ===== ", "***", "~~~~", "___", "-=-=-=-", "!/usr/bin/env spok", "!/bin/sh", "##", "#-#-#", " - "}
+
 func CommentText(t *rapid.T, label string) string {
+	if rapid.IntRange(0, 24).Draw(t, label+"_decor") == 0 {
+		return rapid.SampledFrom(decorComments).Draw(t, label+"_decor_text")
+	}
 	switch rapid.IntRange(0, 9).Draw(t, label+"_kind") {
 	case 0:
 		return ""
@@ -144,7 +150,7 @@ var cmdPieces = []string{
 // Command draws a command line over the admissible command alphabet: it starts with an
 // ASCII letter, is ASCII only, has no '#', no '{' or '}' outside a well-formed {{.NAME}}
 // reference, and neither starts nor ends with a blank.
-var wholeCmds = []string{"task build", "task", "tasks --list", "taskfile run x", "go test ./...", "make -j4", "echo 100%", "printf a\\ \\  b", "x"}
+var wholeCmds = []string{"task build", "task", "tasks --list", "taskfile run x", "go test ./...", "make -j4", "echo 100%", "printf a\\ \\  b", "x", "printf 'working\rdone'"}
 
 func Command(t *rapid.T, label string) string {
 	if rapid.IntRange(0, 9).Draw(t, label+"_whole") == 0 {
